@@ -169,6 +169,9 @@ StepEv(s, e) ==
   CASE e.e = "Call"  -> OnCall(s, e)
     [] e.e = "Ret"   -> OnRet(s, e)
     [] e.e = "Tx"    -> OnTx(s, e)
+    \* the socket refused the datagram (transient error): inside a send call the call fails and the message was never accepted (Ret < 0 follows);
+    \* for a message the library already holds (release of a held one, retransmission) it is a transmission that got lost - the message stays queued
+    [] e.e = "TxFail" -> IF e.ty \in {CON, NON} /\ s.pend # << >> /\ s.pend[1].s = e.s /\ s.pend[1].mid = e.mid THEN OK(s) ELSE OnTx(s, e)
     [] e.e = "Rx"    -> OnRx(s, e)
     [] e.e = "Resp"  -> OnResp(s, e)
     [] e.e = "Nack"  -> OnNack(s, e)
